@@ -127,12 +127,13 @@ fn c16_policy_roots_replay() {
     }
     family.extend(depth1.iter().cloned());
     // depth 2: a sample of depth-1 policies combined with leaves, on either side
+    let deep = std::env::var("VERIF_NATIVE_DEEP").is_ok(); // thorough tier: every depth-1 policy with every leaf
     for (i, d) in depth1.iter().enumerate() {
-        if i % 7 != 0 {
+        if !deep && i % 7 != 0 {
             continue;
         }
         for (j, l) in ls.iter().enumerate() {
-            if (i + j) % 3 != 0 {
+            if !deep && (i + j) % 3 != 0 {
                 continue;
             }
             family.push(and(d, l));
